@@ -26,10 +26,11 @@ import (
 //	close(ch) ; cap(ch) ; len(ch)     → ch.Close() ; ch.Cap() ; ch.Len()
 //	sync.WaitGroup{}                  → vsched.WaitGroup{Name: "<func>.<var>"}
 //	select { case v, ok := <-c: … }   → c.RecvCase() … switch vsched.Select(…) { case 0: v, ok := _c0.Val, _c0.Ok … }
+//	select { …; default: … }          → switch vsched.SelectDefault(…) { …; default: … }
 //	x = … inside a go literal, x declared outside it  → … ; vsched.Write("x")
 //	return … x … (outside go literals, x written by a goroutine) → vsched.Read("x"); return …
 //
-// Anything the rewriter does not know how to map (send cases / default in select, go on a named function,
+// Anything the rewriter does not know how to map (send cases in select, go on a named function,
 // range over a channel with `=`) is an error: the check then reports that the correspondence could
 // not be established instead of silently skipping code.
 func (p *Pkg) RewriteTo(outDir string) error {
@@ -381,12 +382,16 @@ func (k *rw) selectStmt(s *ast.SelectStmt) ast.Stmt {
 	blk := &ast.BlockStmt{}
 	sw := &ast.SwitchStmt{Body: &ast.BlockStmt{}}
 	call := &ast.CallExpr{Fun: vs("Select")}
-	for i, c := range s.Body.List {
+	ncase := 0
+	for _, c := range s.Body.List {
 		cc := c.(*ast.CommClause)
-		if cc.Comm == nil {
-			k.fail(cc, "select with a default case")
-			return s
+		if cc.Comm == nil { // default: vsched.SelectDefault returns -1, which no numbered case matches
+			call.Fun = vs("SelectDefault")
+			sw.Body.List = append(sw.Body.List, &ast.CaseClause{Body: k.stmtList(cc.Body)})
+			continue
 		}
+		i := ncase
+		ncase++
 		var recv *ast.UnaryExpr
 		var lhs []ast.Expr
 		tok := token.DEFINE
